@@ -490,23 +490,23 @@ func TestC08(t *testing.T) {
 	rec.Exhaustive(fmt.Sprintf("index/slice/getpath forms (%d) x boundary keys (%d) x path contexts (%d)", len(forms), len(keys), len(ctxs)), ecomplete && rec.Thorough())
 
 	// (i) byte-level mutations of the corpus queries
-	rec.Rapid(t, "mutated", rec.Scale(150000, 6000000), func(t *rapid.T) {
+	rec.Rapid(t, "mutated", rec.Scale(150000, 3000000), func(t *rapid.T) {
 		src := mutate(t, rapid.SampledFrom(qs).Draw(t, "query"))
 		src, _ = sanitize(src)
 		judge(t, "mutated", mkLib(src, values.Draw(t, "input"), values.Draw(t, "var")))
 	})
 	// (ii) every builtin with wrong-typed and boundary arguments
-	rec.Rapid(t, "builtins", rec.Scale(150000, 6000000), func(t *rapid.T) {
+	rec.Rapid(t, "builtins", rec.Scale(150000, 3000000), func(t *rapid.T) {
 		src := builtinProgram(t, names)
 		judge(t, "builtins", mkLib(src, values.Draw(t, "input"), values.Draw(t, "var")))
 	})
 	// (iii) grammar programs on inputs of every Go representation
 	progs := gen.Program(gen.Conf{AltPat: true, AltPatFree: true, Paths: true, Builtins: true, Update: true, Halt: true, MaxNodes: 40})
-	rec.Rapid(t, "grammar", rec.Scale(60000, 3000000), func(t *rapid.T) {
+	rec.Rapid(t, "grammar", rec.Scale(60000, 1500000), func(t *rapid.T) {
 		judge(t, "grammar", mkLib(progs.Draw(t, "prog").Src, values.Draw(t, "input"), values.Draw(t, "var")))
 	})
 	// pure byte soup
-	rec.Rapid(t, "bytes", rec.Scale(60000, 3000000), func(t *rapid.T) {
+	rec.Rapid(t, "bytes", rec.Scale(60000, 1500000), func(t *rapid.T) {
 		n := rapid.IntRange(0, 12).Draw(t, "n")
 		var sb strings.Builder
 		for i := 0; i < n; i++ {
@@ -520,7 +520,7 @@ func TestC08(t *testing.T) {
 		judge(t, "bytes", mkLib(src, values.Draw(t, "input"), nil))
 	})
 	// (iv) the command: random argv and stdin
-	rec.Rapid(t, "cli", rec.Scale(2500, 80000), func(t *rapid.T) {
+	rec.Rapid(t, "cli", rec.Scale(2500, 40000), func(t *rapid.T) {
 		n := rapid.IntRange(0, 6).Draw(t, "nargs")
 		c := cliCase{}
 		for i := 0; i < n; i++ {
